@@ -302,7 +302,12 @@ impl Ctx {
         let _ = std::fs::create_dir_all(&evdir);
         // the plain-release ("wrapping") build is an additional pass of some thorough checks; its
         // evidence goes next to the main file, which is always written by the overflow-checked build
-        let evpath = if self.build == "wrapping" { evdir.join(format!("{}.wrapping.json", self.id)) } else { evdir.join(format!("{}.json", self.id)) };
+        let evpath = if self.build == "wrapping" {
+            let _ = std::fs::create_dir_all(evdir.join("wrapping-build"));
+            evdir.join("wrapping-build").join(format!("{}.json", self.id))
+        } else {
+            evdir.join(format!("{}.json", self.id))
+        };
         if std::fs::write(&evpath, serde_json::to_string_pretty(&ev).unwrap()).is_err() {
             machinery_error("cannot write evidence file");
         }
